@@ -4,6 +4,9 @@ import Vata.Proofs.CowHeap3
 import Vata.Proofs.Store
 import Vata.Proofs.IsectModel
 import Vata.Proofs.MtbddOps
+import Vata.Proofs.Sanitize
+import Vata.Proofs.IsectBU
+import Vata.Proofs.StoreRefine
 /-!
 # C20 – Operations on well-formed automata have no memory errors or undefined behaviour
 
@@ -32,8 +35,12 @@ errors in the corresponding component, proved for the model of that component ov
 * `CowHeap.*`, `CowHeap3.*` (`Vata/CowHeap.lean`, `Vata/CowHeap3.lean`): the `shared_ptr` copy-on-write heap of
   `ExplicitTreeAutCore` at two resp. all three levels of sharing (the models of C11);
 * `Store.*` (`Vata/Store.lean`): the three-level rule container as a value (the model of C12);
-* `isectTD` (`Vata/IsectModel.lean`): the product construction of `Intersection` with its translation map (C02);
-* `M.*` (`Vata/MtbddOps.lean`): the MTBDD operations on trees (C17).
+* `isectTD` (`Vata/IsectModel.lean`), `isectBU` (`Vata/IsectBU.lean`): the product constructions of `Intersection` and
+  `IntersectionBU` with their translation maps (C02);
+* `sanitize` (`Vata/Sanitize.lean`): `SanitizeAutsForInclusion`, whose returned counter dimensions the dense, state-indexed
+  tables of the inclusion algorithms (C01);
+* `M.*` (`Vata/MtbddOps.lean`): the MTBDD operations on trees (C17); `RcS.unfold` (`Vata/Proofs/StoreRefine.lean`): the
+  diagram below a node of the store.
 
 In all of them the "specification" side is the invariant itself (`RcS.indeg`/`handlesTo`/`Reach`, `CowHeap.Inv`,
 `CowHeap3.Inv`, `Store.Inv`, `InjOn`, `M.WF`); the "model of the code" side is the history semantics
@@ -133,6 +140,53 @@ theorem C20_product_map_injective_partial (A B : TA) (fuel : Nat) (P : TA) (m : 
 example : (isectTD IsectEx.exA IsectEx.exB 4).map (·.2) = some [((1, 1), 0), ((0, 0), 1), ((0, 1), 2), ((1, 2), 3)] := by
   decide
 
+/-- PARTIAL (the same for the bottom-up product `IntersectionBU`, `explicit_tree_isect_bu.cc`): whenever the model
+returns a product, its translation map is injective on its domain – although the C++ inserts parent pairs TENTATIVELY
+(`pTranslMap->insert(make_pair(pair, pTranslMap->size()))`) and erases them again when a child pair is unknown, so that
+`size()` goes down and a number is handed out a second time, no two pairs that remain share a number -/
+theorem C20_product_bu_map_injective_partial (A B : TA) (fuel : Nat) (P : TA) (m : PMap)
+    (h : isectBU A B fuel = some (P, m)) :
+    ∀ x, x ∈ m.dom → ∀ y, y ∈ m.dom → lookupF m x = lookupF m y → x = y := isectBU_map_inj h
+
+-- self-loop rules on both sides: the tentative entry for `(2, 5)` is erased again; the remaining map is `0, 1`
+example : (isectBU IsectBUEx.exS IsectBUEx.exL 20).map (·.2) = some [((0, 0), 0), ((1, 0), 1)] := by decide
+
+/-! ### index bounds of the dense state-indexed tables -/
+
+/-- PARTIAL (bounds of the tables dimensioned by the counter of `SanitizeAutsForInclusion`): the counter `n` the model
+returns bounds every state of both prepared operands (`q < n`) – the inclusion algorithms allocate `Util::Identity(n)` and
+vectors of size `n` and index them with states –; more precisely the first operand has exactly the states `0..k-1`, the
+second exactly `k..n-1` (no gap, no overlap), and `n` is the total number of states, so the tables are also not larger
+than needed.  Model-level content of "no out-of-bounds access through a state index" for tables of that dimension;
+that the C++ indexes ONLY with states of the prepared operands is not modelled -/
+theorem C20_sanitise_index_bounds_partial (A B : TA) :
+    (∀ q, q ∈ (sanitize A B).1.states ∨ q ∈ (sanitize A B).2.1.states → q < (sanitize A B).2.2) ∧
+    (∀ x, (x ∈ (sanitize A B).1.states ↔ x < (sanitize A B).1.states.length) ∧
+      (x ∈ (sanitize A B).2.1.states ↔ (sanitize A B).1.states.length ≤ x ∧ x < (sanitize A B).2.2)) ∧
+    (sanitize A B).2.2 = (sanitize A B).1.states.length + (sanitize A B).2.1.states.length :=
+  ⟨sanitize_bound A B, sanitize_dense A B, (sanitize_count A B).1⟩
+
+-- operands that overlap and use the numbers 3, 4, 7, 9: prepared states `0,1` and `2`, counter 3
+example : (sanitize SanEx.exA SanEx.exB).1.states = [1, 0] ∧ (sanitize SanEx.exA SanEx.exB).2.1.states = [2] ∧
+    (sanitize SanEx.exA SanEx.exB).2.2 = 3 ∧ 9 ∈ SanEx.exA.states := by decide
+
+/-! ### the MTBDD node store has no duplicate nodes -/
+
+/-- PARTIAL (hash-consing of the MTBDD node store, for every history): two allocated nodes whose unfoldings – the
+diagrams below them – are structurally equal are the same node, and every unfolding is ordered and reduced.  This is
+what makes the pointer comparisons of the C++ (`operator==` on roots, the keys of the unique tables and of the apply
+caches, which are raw node addresses) meaningful: an address identifies a diagram.  It says nothing about the lifetime of
+the addresses held in caches (see the end of the file) -/
+theorem C20_store_nodes_unique_partial (f : Nat → Nat → Nat) (ops : List RcS.Op) :
+    (∀ n n', n ∈ (RcS.runF f ops).ids → n' ∈ (RcS.runF f ops).ids →
+      RcS.unfold (RcS.runF f ops).dat (n+1) n = RcS.unfold (RcS.runF f ops).dat (n'+1) n' → n = n') ∧
+    (∀ n, n ∈ (RcS.runF f ops).ids → M.WF (RcS.unfold (RcS.runF f ops).dat (n+1) n)) :=
+  ⟨fun _ _ hn hn' he => RcS.unfold_injective (RcS.runF_inv f ops) hn hn' he, RcS.unfold_wf f ops⟩
+
+example : (RcS.runF RcS.applyOp RcS.RefineEx.ops).ids = [9, 8, 7, 6, 5, 4, 3, 2, 1, 0] ∧
+    RcS.unfold (RcS.runF RcS.applyOp RcS.RefineEx.ops).dat 10 9 = .node 1 (.node 0 (.leaf 0) (.leaf 5)) (.leaf 7) := by
+  decide
+
 /-! ### MTBDD operations keep diagrams well formed -/
 
 /-- PARTIAL (structural invariant of MTBDDs): construction and the three applies return ordered reduced diagrams when
@@ -163,11 +217,15 @@ example : M.OpsEx.exA = .node 2 (.node 0 (.leaf 0) (.leaf 5)) (.leaf 0) := by de
   emulated call stack and the address-keyed caches of the downward inclusion (`explicit_tree_incl_down.cc`, `cache.hh`,
   `cached_binary_op.hh`: invalidation when a cached set dies), the antichain containers of the upward inclusion, the
   BDD-encoded automata (`bdd_*_isect.cc` with their product-state counters), the finite-automata code
-  (`explicit_finite_*`), the parsers/serializers.  For these there is not even a bookkeeping invariant.
+  (`explicit_finite_*`), the parsers/serializers.  For these there is not even a bookkeeping invariant: the models of the
+  inclusion, complement and BDD-table operations added for C01, C06, C07, C08, C09 are functional models (values, lists)
+  that say what is computed, not how memory is managed while computing it.
 * **Between model and code.**  Even for the modelled components (MTBDD node store, copy-on-write heap, rule container,
-  explicit product) the theorems are about the model; the agreement of model and code is tested (correspondence checks of
+  explicit products, the counter of `SanitizeAutsForInclusion`) the theorems are about the model; the agreement of model and code is tested (correspondence checks of
   C11, C12, C17, C18, C02), not proved.  The model-level analogues ("reachable ⇒ allocated", "deleted at most once", "use
   count = number of owners") do not cover reads of uninitialised fields, iterator invalidation or integer overflow.
 * No arithmetic claim: state numbers are unbounded `Nat` in all models, so overflow of state counters cannot be expressed.
+  `C20_sanitise_index_bounds_partial` bounds the states by the returned counter; that the counter (and `2^16` symbols, the
+  `size_t` sizes of the product maps) fits the machine types is not stated.
 -/
 end Vata.Props
